@@ -94,7 +94,9 @@ HOSTILE_STATES = ["bucket-is-dir", "bucket-dangling-symlink", "bucket-empty-file
                   "bucket-1MiB-line", "bucket-symlink-loop", "content-is-dir", "content-dangling-symlink",
                   "content-empty", "index-v5-is-file", "content-v2-is-file", "tmp-is-file", "tmp-is-dangling-symlink",
                   "stray-files-in-index", "stray-files-in-content", "cache-root-is-file", "cache-root-missing",
-                  "index-dir-unreadable-name", "bucket-only-newlines", "bucket-huge-json-depth"]
+                  "index-dir-unreadable-name", "bucket-only-newlines", "bucket-huge-json-depth",
+                  # directory symlinks that lead back up: a walk that follows links never ends (or trips a loop detector)
+                  "index-link-to-itself", "index-shard-link-to-ancestor", "content-link-to-cache-root", "cache-root-link-inside"]
 
 
 def make_state(state, cache, key, sri):
@@ -119,7 +121,15 @@ def make_state(state, cache, key, sri):
             os.unlink(path)
         how(path)
 
-    if state == "bucket-is-dir":
+    if state == "index-link-to-itself":
+        os.symlink(os.path.join(cache, "index-v5"), os.path.join(cache, "index-v5", "again"))
+    elif state == "index-shard-link-to-ancestor":
+        os.symlink("../..", os.path.join(os.path.dirname(bp), "up"))
+    elif state == "content-link-to-cache-root":
+        os.symlink(cache, os.path.join(cache, "content-v2", "sha256", "root"))
+    elif state == "cache-root-link-inside":
+        os.symlink(".", os.path.join(cache, "self"))
+    elif state == "bucket-is-dir":
         replace(bp, os.makedirs)
     elif state == "bucket-dangling-symlink":
         replace(bp, lambda p: os.symlink("/nonexistent/target", p))
